@@ -767,6 +767,19 @@ func (s *Sim) Tasks() []Task {
 	return out
 }
 
+// AllTasksLocked reports whether pred holds for every task. It is for use inside
+// EnvAction.Enabled callbacks only (the scheduler already holds the lock there).
+func (s *Sim) AllTasksLocked(pred func(t Task) bool) bool {
+	for _, t := range s.tasks {
+		c := *t
+		c.wake = nil
+		if !pred(c) {
+			return false
+		}
+	}
+	return true
+}
+
 // TaskState returns the state of a task.
 func (s *Sim) TaskState(t *Task) State {
 	s.mu.Lock()
